@@ -18,11 +18,14 @@ func init() {
 }
 
 func runC17(c *Ctx) {
+	defer checkSearchFlags(c, "C17-R2", "internal/reporter.bitBucketAPI.addComments", "internal/reporter.bitBucketAPI.pruneComments")
 	p := c.P
 	c.Rule("C17-R1", "create guard: no duplicate of a recognised comment; budget respected and counted", 6)
 	c.Rule("C17-R2", "delete guard: only comments matching no pending one, only when allowed", 4)
 	c.Rule("C17-R3", "platform siblings: IsEqual covers path, line, text of both sides; CanCreate is n < maxComments", 9)
 	c.Rule("C17-R4", "summary always posted; delete errors collected", 3)
+	c.Rule("C17-R5", "reports reach the commenters in a total order (comparator keys, shared with C11-R1)", 8)
+	defer c11ComparatorKeys(c, "C17-R5")
 	defer c17ListFilters(c)
 	defer c17FirstNoteOnly(c)
 
@@ -54,12 +57,64 @@ func runC17(c *Ctx) {
 	find := func(name string) []SiteMatch {
 		return fl.Find(func(n ast.Node) bool { return isMethod(n, name) != nil })
 	}
-	creates, deletes := find("Create"), find("Delete")
-	c.Check(len(creates) == 1 && len(deletes) == 1, "C17-R1", "updateDestination:one Create and one Delete site", ud.Decl.Pos(), "sites found", "expected one Create and one Delete call, found "+itoa(len(creates))+"/"+itoa(len(deletes)))
+	// the two phases may live in updateDestination itself or in helpers it calls
+	// (same package, two levels): each is analysed in the function that holds it
+	type phaseFn struct {
+		fi *FuncInfo
+		fl *Flow
+		pm map[ast.Node]ast.Node
+	}
+	var cands []*phaseFn
+	{
+		seen := map[*FuncInfo]bool{}
+		var add func(fi *FuncInfo, depth int)
+		add = func(fi *FuncInfo, depth int) {
+			if fi == nil || seen[fi] || fi.Decl.Body == nil || fi.Pkg != ud.Pkg {
+				return
+			}
+			seen[fi] = true
+			f := p.NewFlow(fi)
+			if fi == ud {
+				f = fl
+			}
+			cands = append(cands, &phaseFn{fi, f, parentMap(fi.Decl.Body)})
+			if depth >= 2 {
+				return
+			}
+			ast.Inspect(fi.Decl.Body, func(n ast.Node) bool {
+				if call, ok := n.(*ast.CallExpr); ok {
+					if fn := Callee(info, call); fn != nil {
+						if recv := fn.Type().(*types.Signature).Recv(); recv == nil {
+							add(p.FuncOf(fn), depth+1)
+						}
+					}
+				}
+				return true
+			})
+		}
+		add(ud, 0)
+	}
+	findIn := func(pf *phaseFn, name string) []SiteMatch {
+		return pf.fl.Find(func(n ast.Node) bool { return isMethod(n, name) != nil })
+	}
+	var creates, deletes []SiteMatch
+	var createFn, deleteFn *phaseFn
+	for _, pf := range cands {
+		if m := findIn(pf, "Create"); len(m) > 0 {
+			creates = append(creates, m...)
+			createFn = pf
+		}
+		if m := findIn(pf, "Delete"); len(m) > 0 {
+			deletes = append(deletes, m...)
+			deleteFn = pf
+		}
+	}
+	c.Check(len(creates) == 1 && len(deletes) == 1, "C17-R1", "updateDestination:one Create and one Delete site", ud.Decl.Pos(), "sites found", "expected one Create and one Delete call in updateDestination and its helpers, found "+itoa(len(creates))+"/"+itoa(len(deletes)))
 	if len(creates) != 1 || len(deletes) != 1 {
 		return
 	}
-	pm := parentMap(ud.Decl.Body)
+	cur := createFn
+	pm := cur.pm
 	enclosingLoops := func(n ast.Node) []*ast.RangeStmt {
 		var out []*ast.RangeStmt
 		for cur := pm[n]; cur != nil; cur = pm[cur] {
@@ -69,7 +124,10 @@ func runC17(c *Ctx) {
 		}
 		return out
 	}
-	phase := func(rule string, site SiteMatch, what, canName string) (outer *ast.RangeStmt) {
+	phase := func(rule string, pf *phaseFn, site SiteMatch, what, canName string) (outer *ast.RangeStmt) {
+		cur = pf
+		pm = pf.pm
+		fl := pf.fl
 		loops := enclosingLoops(site.Inner)
 		if len(loops) != 1 {
 			c.Undecided(rule, "updateDestination:"+what+" inside one loop", site.Inner.Pos(), itoa(len(loops))+" enclosing loops")
@@ -92,6 +150,35 @@ func runC17(c *Ctx) {
 			target := site.Site
 			// stay within the iteration: recompute with the outer head blocked
 			reach := reachWithin(fl, Site{b.Succs[0], 0}, target, head)
+			if reach {
+				// flag idiom: the true branch sets a boolean that the phase's action is dominated by being false
+				{
+					var body ast.Node
+					for up := pm[ast.Node(cond)]; up != nil; up = pm[up] {
+						if ifs, ok := up.(*ast.IfStmt); ok {
+							body = ifs.Body
+							break
+						}
+					}
+					if body != nil {
+						ast.Inspect(body, func(n ast.Node) bool {
+							as, isAs := n.(*ast.AssignStmt)
+							if !isAs || len(as.Lhs) != 1 || len(as.Rhs) != 1 {
+								return true
+							}
+							tv, isC := info.Types[as.Rhs[0]]
+							v := objOf(info, as.Lhs[0])
+							if !isC || tv.Value == nil || tv.Value.String() != "true" || v == nil {
+								return true
+							}
+							if fl.Dominated(site.Site, site.Inner, func(a Atom) bool { return !a.Truth && a.Tag == nil && objOf(info, a.E) == v }) {
+								reach = false
+							}
+							return true
+						})
+					}
+				}
+			}
 			c.Check(!reach, rule, "updateDestination:"+what+" unreachable after IsEqual is true (same iteration)", cond.Pos(), "recognised comment short-circuits",
 				what+" can be reached in the iteration in which IsEqual(dst, existing, pending) held: an equal comment is "+map[string]string{"Create": "created again", "Delete": "deleted"}[what])
 			// IsEqual compares the loop variables of the two lists
@@ -103,13 +190,14 @@ func runC17(c *Ctx) {
 		c.Check(dom, rule, "updateDestination:"+what+" dominated by "+canName, site.Inner.Pos(), "budget/permission respected", what+" is reachable without "+canName+"(...) being true")
 		return outer
 	}
-	outerCreate := phase("C17-R1", creates[0], "Create", "CanCreate")
-	outerDelete := phase("C17-R2", deletes[0], "Delete", "CanDelete")
+	outerCreate := phase("C17-R1", createFn, creates[0], "Create", "CanCreate")
+	outerDelete := phase("C17-R2", deleteFn, deletes[0], "Delete", "CanDelete")
 
 	// created counter
 	if outerCreate != nil {
 		var created types.Object
-		for _, sm := range find("CanCreate") {
+		fl := createFn.fl
+		for _, sm := range findIn(createFn, "CanCreate") {
 			call := sm.Inner.(*ast.CallExpr)
 			if len(call.Args) == 1 {
 				created = objOf(info, call.Args[0])
@@ -127,7 +215,7 @@ func runC17(c *Ctx) {
 			c.Check(!reach, "C17-R1", "updateDestination:created++ between a successful Create and the next pending comment", creates[0].Inner.Pos(), "every creation is counted", "a successful Create can reach the next iteration without incrementing the budget counter (more than maxComments comments per run)")
 			// writers
 			nW := 0
-			ast.Inspect(ud.Decl.Body, func(n ast.Node) bool {
+			ast.Inspect(createFn.fi.Decl.Body, func(n ast.Node) bool {
 				switch x := n.(type) {
 				case *ast.IncDecStmt:
 					if objOf(info, x.X) == created {
@@ -147,7 +235,28 @@ func runC17(c *Ctx) {
 	}
 	// both phases use the same pending list, and the existing list
 	if outerCreate != nil && outerDelete != nil {
-		pend := objOf(info, outerCreate.X)
+		// a list that is a helper's parameter is the argument updateDestination passes for it
+		inUD := func(pf *phaseFn, o types.Object) types.Object {
+			if pf.fi == ud || o == nil {
+				return o
+			}
+			sig := pf.fi.Obj.Type().(*types.Signature)
+			for i := 0; i < sig.Params().Len(); i++ {
+				if sig.Params().At(i) != o {
+					continue
+				}
+				var arg types.Object
+				ast.Inspect(ud.Decl.Body, func(n ast.Node) bool {
+					if call, ok := n.(*ast.CallExpr); ok && Callee(info, call) == pf.fi.Obj && i < len(call.Args) {
+						arg = objOf(info, call.Args[i])
+					}
+					return true
+				})
+				return arg
+			}
+			return nil
+		}
+		pend := inUD(createFn, objOf(info, outerCreate.X))
 		var inner *ast.RangeStmt
 		ast.Inspect(outerDelete.Body, func(n ast.Node) bool {
 			if rs, ok := n.(*ast.RangeStmt); ok && inner == nil {
@@ -155,7 +264,7 @@ func runC17(c *Ctx) {
 			}
 			return true
 		})
-		same := inner != nil && pend != nil && objOf(info, inner.X) == pend
+		same := inner != nil && pend != nil && inUD(deleteFn, objOf(info, inner.X)) == pend
 		c.Check(same, "C17-R2", "updateDestination:delete phase scans the same pending list as the create phase", outerDelete.Pos(), "same list", "the delete phase compares existing comments with a different pending list than the create phase")
 		// pending list from makeComments(s, showDuplicates)
 		fromMake := false
@@ -287,6 +396,7 @@ func runC17(c *Ctx) {
 	// Delete error is not returned
 	delCall := deletes[0].Inner
 	var delIf *ast.IfStmt
+	pm = deleteFn.pm
 	for cur := pm[delCall]; cur != nil; cur = pm[cur] {
 		if x, ok := cur.(*ast.IfStmt); ok {
 			delIf = x
